@@ -437,7 +437,7 @@ pub fn c08(tier: &str) -> ! {
     let mut rep = Report::new("C08", tier, "fault_enumeration");
     let t = tier == "thorough";
     if t {
-        run_faults(&mut rep, "covering", covering_histories(&["T300", "T300n", "M2", "M2n"]), class::PROPERTY_SET | class::LIST, budget(tier, 40, 1800));
+        run_faults(&mut rep, "covering", covering_histories(&["T300", "T300n", "M2", "M2n"]).into_iter().chain(shrink_history()).collect(), class::PROPERTY_SET | class::LIST, budget(tier, 40, 1800));
         run_faults(&mut rep, "generated<=3", generated_histories(&["T300", "M2n"], 3), class::PROPERTY_SET, budget(tier, 40, 2400));
         run_faults(&mut rep, "covering+reads", covering_histories(&["M2"]), class::ALL, budget(tier, 40, 1200));
     } else {
@@ -445,10 +445,20 @@ pub fn c08(tier: &str) -> ! {
         run_faults(&mut rep, "covering+reads", covering_histories(&["M2"]), class::ALL, budget(tier, 15, 0));
         run_faults(&mut rep, "generated<=3", generated_histories(&["T300", "M2n"], 3), class::PROPERTY_SET, budget(tier, 25, 0));
     }
+    {
+        use crate::props_sched::{c08_concurrent_programs, run_sched};
+        let own2 = |c: &str| c.starts_with("C08.") || c.starts_with("C09.");
+        if t {
+            run_sched(&mut rep, "fault-under-concurrency/p2d4", &c08_concurrent_programs(), (2, 4), 16, false, 2, Duration::from_secs(1500), own2);
+        } else {
+            run_sched(&mut rep, "fault-under-concurrency/p1d3", &c08_concurrent_programs(), (1, 3), 4, false, 1, Duration::from_secs(15), own2);
+        }
+        rep.assume("schedule part: a fault by file kind (once or sticky) during 2-3 thread programs; interleavings only at synchronisation operations and named points");
+    }
     rep.assume("a failing call has no effect on the file (fail-before semantics); one fault per execution, either that single call (once) or that call and all later ones of the counted classes (sticky)");
     rep.assume("counted call classes: create, write/append, rename, remove, open-for-read, size (thorough adds list and, for one configuration, handle reads and flush)");
     rep.assume("histories executed under the deterministic eager schedule");
-    rep.cov("rule", json!("one evaluation = one re-execution of a history with the i-th filesystem call failing (once or sticky), for every i of the uninjected run; judged: no panic, no hang (also at close); after every operation all keys are read and the non-error results must be explained by one candidate state (Ok writes applied, Err writes applied or not); after disarming the fault the database must reopen and contain a candidate state. distinct_nontrivial = injections whose fault actually fired (the call index was reached)"));
+    rep.cov("rule", json!("one evaluation = one re-execution of a history with the i-th filesystem call failing (once or sticky), for every i of the uninjected run; judged: no panic, no hang (also at close); after every operation all keys are read and the non-error results must be explained by one candidate state (Ok writes applied, Err writes applied or not); after disarming the fault the database must reopen and contain a candidate state. Schedule part: every schedule within the stated bounds of writer/reader thread programs with a fault by file kind (once / sticky): the history must be linearizable with failed calls optional (an Ok write is visible to every later successful read) and after the fault is gone a reopened database holds, per key, a value no acknowledged write definitely overwrote. distinct_nontrivial = injections whose fault actually fired (the call index was reached)"));
     rep.finish()
 }
 
